@@ -162,6 +162,10 @@ let check_line (l : string) : string =
     let _ = next t in let _ = next t in let nent = next t in
     expect t "NAMES";
     if next_bool t then "OK" else "ORACLE C15.readdir_incomplete nent=" ^ nent
+  | "IOFAR" ->
+    let msize = next t in let _ = next t in let flen = next t in
+    expect t "SAME";
+    if next_bool t then "OK" else Printf.sprintf "ORACLE C14.read_beyond_4GiB_returns_data_or_fails msize=%s filelen=%s" msize flen
   | "RDSMALL" ->
     let _ = next t in let msize = next t in let pos = next t in
     expect t "ERR";
